@@ -324,6 +324,86 @@ def h_copyback(stage):
     return h
 
 
+# ------------------------------------------------------------------ K-fwhm-mask (which pixels of the cut-out enter the fit)
+def h_fwhm_mask(mods):
+    """the real _refit_islands from the catalogue to the call of the optimiser on a two-member island of concrete geometry and
+    SYMBOLIC amplitudes (any sign, any ratio): the pixels handed to the fit are those within the 10 % contour of the
+    unit-amplitude model of the members -- the same pixels whatever the amplitudes are"""
+    from checks import C14
+    sf = mods['source_finder']
+
+    def h(c):
+        sf.lmfit = type('LM', (), {'Parameters': r2c.Model})
+        sf.Beam = Beamish
+        H, W = 40, 50
+        finder = sf.SourceFinder(log=loader.NullLog())
+        gd = finder.global_data
+        gd.img = real_np.ones((H, W))
+        gd.rmsimg = real_np.ones((H, W))
+        gd.docov = False
+        geo = [((15.3, 20.2), (5.0, 4.0, 20.0)), ((16.1, 29.4), (4.5, 4.5, 0.0))]      # 1-based (row, col); FWHM px, angle
+
+        class WH:
+            def __init__(self):
+                self.k = 0
+
+            def sky2pix(self, pos):
+                return list(geo[int(pos[0])][0])
+
+            def sky2pix_ellipse(self, pos, a, b, pa):
+                (r_, c_), (sx_, sy_, th_) = geo[int(pos[0])]
+                return r_, c_, sx_, sy_, th_
+
+            def get_psf_sky2pix(self, ra, dec):
+                return (4.0, 4.0, 0.0)
+        gd.wcshelper = gd.psfhelper = WH()
+        amps = [real('amp0'), real('amp1')]
+        for a_ in amps:
+            c.assume(a_.e != 0)
+
+        class Src:
+            def __init__(self, k):
+                self.ra, self.dec, self.a, self.b, self.pa = float(k), -20.0, 60.0, 50.0, 0.0
+                self.peak_flux = amps[k]
+                self.island, self.source, self.flags, self.uuid = 3, k, 0, 'u%d' % k
+        got = {}
+
+        def fake_fit(data, params, B=None, **kw):
+            got['data'] = real_np.array(data, dtype=float)
+            raise core.Cut('fit')
+        sf.do_lmfit = fake_fit
+        try:
+            finder._refit_islands([[Src(0), Src(1)]], 1, None, istart=0)
+        except core.Cut:
+            pass
+        tag = 'FWHM mask[two members, symbolic amplitudes]'
+        c.oblige(tag + ':the island reaches the optimiser', z3.BoolVal('data' in got))
+        if 'data' not in got:
+            return dict()
+        d = got['data']
+        # oracle: unit-amplitude members on the cut-out; the cut-out origin is recovered from the shape and the clipped limits
+        want_all = None
+        rows = [g[0][0] - 1 for g in geo]
+        cols = [g[0][1] - 1 for g in geo]
+        best = None
+        for x0 in range(0, H - d.shape[0] + 1):
+            for y0 in range(0, W - d.shape[1] + 1):
+                model = real_np.zeros(d.shape)
+                for (r_, c_), (sx_, sy_, th_) in geo:
+                    model += C14.gauss_oracle(d.shape, r_ - 1 - x0, c_ - 1 - y0, sx_, sy_, th_, 1.0)
+                keep = model > 0.1
+                near = real_np.abs(model - 0.1) < 1e-9
+                if real_np.array_equal(real_np.isfinite(d) | near, keep | near):
+                    best = (x0, y0)
+                    break
+            if best:
+                break
+        c.oblige(tag + ':the pixels handed to the fit are those inside the 10 % contour of the unit-amplitude members, for every amplitude', z3.BoolVal(best is not None),
+                 info='kept %d of %d pixels' % (int(real_np.isfinite(d).sum()), d.size))
+        return dict(origin=best)
+    return h
+
+
 # ------------------------------------------------------------------ K-presence (data under each component of the cut-out)
 def presence_loop():
     """the loop of _refit_islands that takes `square = idata[a:b, c:d]` around each component and tests it with isfinite:
@@ -711,6 +791,13 @@ def run(rep):
         collect(rep, res, 'K-copyback', lambda: oracle_pairing(), dict(kind='pairing'))
     except slicer.AnchorMissing as e:
         rep.inconc('anchor-missing %s' % e)
+    rep.end_kernel()
+    rep.kernel('K-fwhm-mask', functions=[F + ':SourceFinder._refit_islands', 'AegeanTools/fitting.py:ntwodgaussian_lmfit', 'AegeanTools/fitting.py:elliptical_gaussian'],
+               bounds='the WHOLE function up to the optimiser call on a two-member island of concrete geometry, both amplitudes symbolic (non-zero, any sign and ratio)',
+               stubs=['lmfit.Parameters -> record class', 'do_lmfit -> cut capturing the pixels it is given', 'wcs/psf helpers -> concrete pixel geometry'])
+    st, res = explore(h_fwhm_mask(mods), wall_s=90, max_paths=24)
+    rep.stats(st)
+    collect(rep, res, 'K-fwhm-mask', lambda: oracle_layout('faint-neighbour'), dict(kind='layout', layout='faint-neighbour'))
     rep.end_kernel()
     rep.kernel('K-presence', functions=[F + ':SourceFinder._refit_islands'], bounds='one component centred in any pixel of a cut-out of any shape up to 200x200 (symbolic integers), symbolic sub-pixel position',
                assumes=['slice: the statements of the per-component loop up to `square = idata[a:b, c:d]` (located by role: a 2-D box of the cut-out that is then tested with isfinite)'],
